@@ -164,44 +164,53 @@ def gen_server_init() -> str:
     if not body or ast.dump(body[0]) != PARAMS_TEMPLATE:
         raise T.TranslateError("_handle_initialize: first statement is not `params = getattr(message, 'params', None) or {}`", fn)
     default = None
-    lets = []            # Gallina right-hand sides, in order
-    phase = "pre"        # pre -> decide -> post
+    lets = []            # Gallina right-hand sides of the successive bindings of protocol_version, in order
     session_seen = result_seen = False
     result_var = None
-    for st in body[1:]:
+    rest = body[1:]
+    stores = [k for k, st in enumerate(rest) if _stores(st, VAR)]
+    if not stores:
+        raise T.TranslateError("no `protocol_version = params.get('protocolVersion', ...)` found", fn)
+    last_store = stores[-1]
+    for k, st in enumerate(rest):
         if _stores(st, "params") or _stores(st, "message"):
             raise T.TranslateError("params/message rebound inside _handle_initialize", st)
         is_pv_assign = (isinstance(st, ast.Assign) and len(st.targets) == 1 and isinstance(st.targets[0], ast.Name)
                         and st.targets[0].id == VAR)
-        if phase == "pre":
-            if is_pv_assign:
-                v = st.value
-                if not (isinstance(v, ast.Call) and not v.keywords and len(v.args) in (1, 2)
-                        and ast.dump(v.func) == "Attribute(value=Name(id='params', ctx=Load()), attr='get', ctx=Load())"
-                        and isinstance(v.args[0], ast.Constant) and v.args[0].value == "protocolVersion"):
-                    raise T.TranslateError("protocol_version is not read with params.get('protocolVersion', <default>)", st)
-                if len(v.args) == 2 and not (isinstance(v.args[1], ast.Constant) and v.args[1].value is None):
-                    default = f"(Some {g.str_expr(v.args[1])})"
-                else:
-                    default = "None"      # params.get(k) / params.get(k, None): absent behaves like a non-string (null)
-                phase = "decide"
-                continue
-            if _stores(st, VAR) or _loads(st, VAR):
-                raise T.TranslateError("protocol_version used before it is read from params", st)
+        if k == stores[0]:
+            # the first binding must be the read from params
+            v = st.value if is_pv_assign else None
+            if not (isinstance(v, ast.Call) and not v.keywords and len(v.args) in (1, 2)
+                    and ast.dump(v.func) == "Attribute(value=Name(id='params', ctx=Load()), attr='get', ctx=Load())"
+                    and isinstance(v.args[0], ast.Constant) and v.args[0].value == "protocolVersion"):
+                raise T.TranslateError("protocol_version is not first bound by params.get('protocolVersion', <default>)", st)
+            if len(v.args) == 2 and not (isinstance(v.args[1], ast.Constant) and v.args[1].value is None):
+                default = f"(Some {g.str_expr(v.args[1])})"
+            else:
+                default = "None"      # params.get(k) / params.get(k, None): absent behaves like a non-string (null)
             continue
-        if phase == "decide":
+        if k < stores[0] and _loads(st, VAR):
+            raise T.TranslateError("protocol_version used before it is read from params", st)
+        if k in stores:
+            # a step of the decision chain
             if isinstance(st, ast.If):
                 if _stores(st.test, VAR):
                     raise T.TranslateError("assignment expression in a decision test", st)
                 lets.append(f"(if {g.test(st.test)} then {g.branch(st.body, st)} else {g.branch(st.orelse, st)})")
-                continue
-            if is_pv_assign:
+            elif is_pv_assign:
                 lets.append(g.val_expr(st.value))
-                continue
-            phase = "post"
-        # post: nothing may rebind protocol_version; the two uses must be the variable itself
-        if _stores(st, VAR):
-            raise T.TranslateError("protocol_version rebound after the session/result were built from it", st)
+            else:
+                raise T.TranslateError(f"protocol_version rebound by an unsupported statement {type(st).__name__}", st)
+            continue
+        # any other statement: straight-line only (no control flow that could skip the decision or return early)
+        if isinstance(st, ast.Return):
+            if st is not body[-1]:
+                raise T.TranslateError("early return in _handle_initialize", st)
+        elif not isinstance(st, (ast.Assign, ast.Expr)):
+            raise T.TranslateError(f"unsupported statement {type(st).__name__} in _handle_initialize", st)
+        if result_var is not None and (_stores(st, result_var) or (_loads(st, result_var) and not isinstance(st, ast.Return))):
+            raise T.TranslateError("the result dict is rebound or touched between its construction and the return", st)
+        # the two uses must be the variable itself and must come after its last binding
         for n in ast.walk(st):
             if isinstance(n, ast.Call) and isinstance(n.func, ast.Attribute) and n.func.attr == "create_session":
                 arg = None
@@ -210,13 +219,14 @@ def gen_server_init() -> str:
                 for kw in n.keywords:
                     if kw.arg == "protocol_version":
                         arg = kw.value
-                if session_seen or arg is None or ast.dump(arg) != f"Name(id='{VAR}', ctx=Load())":
-                    raise T.TranslateError("create_session is not called exactly once with the decided protocol_version", n)
+                if session_seen or arg is None or ast.dump(arg) != f"Name(id='{VAR}', ctx=Load())" or k < last_store:
+                    raise T.TranslateError("create_session is not called exactly once, after the decision, with the decided "
+                                           "protocol_version", n)
                 session_seen = True
             if isinstance(n, ast.Dict):
-                for k, v in zip(n.keys, n.values):
-                    if isinstance(k, ast.Constant) and k.value == "protocolVersion":
-                        if result_seen or ast.dump(v) != f"Name(id='{VAR}', ctx=Load())":
+                for kk, v in zip(n.keys, n.values):
+                    if isinstance(kk, ast.Constant) and kk.value == "protocolVersion":
+                        if result_seen or ast.dump(v) != f"Name(id='{VAR}', ctx=Load())" or k < last_store:
                             raise T.TranslateError("result['protocolVersion'] is not the decided protocol_version", n)
                         if not (isinstance(st, ast.Assign) and len(st.targets) == 1 and isinstance(st.targets[0], ast.Name)
                                 and st.value is n):
@@ -232,8 +242,6 @@ def gen_server_init() -> str:
                     f"Name(id='new_session_id', ctx=Load())], ctx=Load())")
             if st.value is None or ast.dump(st.value) != want:
                 raise T.TranslateError("return is not (self.create_response(msg_id, <result dict>), new_session_id)", st)
-        elif not isinstance(st, (ast.Assign, ast.Expr)):
-            raise T.TranslateError(f"unsupported statement {type(st).__name__} after the version decision", st)
     if default is None:
         raise T.TranslateError("no `protocol_version = params.get('protocolVersion', ...)` found", fn)
     if not (session_seen and result_seen):
